@@ -12,6 +12,19 @@ Scala text (variant/Call.scala, variant/Genotype.scala; narrow fail-closed extra
   R5  every `small_allele_pair[i]` / `smallAllelePair(i)` literal satisfies i = k(k+1)/2 + j, j <= k; tables agree on their
       common prefix; the table is consulted exactly for i < len(table)
   R6  allele-pair packing j | k << 16 is undone by the accessors (mask 0xFFFF, shift 16) on each side
+  R7  the decoder as a decision list of terms: PathTerms rewrites every return path (nested / module-level / class-level helpers substituted)
+      into a term over the signed word; per (ploidy, phased) case the word is the engine's field layout with 29 symbolic allele bits, and the
+      term of the decoded call, evaluated over the exact bit-vector domain exprir.BV (sign extension included), must EQUAL the term the
+      engine's extracted accessors (ploidy / isPhased / alleleRepr / allelePairUnchecked, AllelePair.j/k) yield - equality of terms is
+      equality for all 2^29 allele-field values, bit 31 set included; the table/sqrt pair inverse is the uninterpreted symbol PAIR on both sides
+  R8  the encoder as a decision list: per (ploidy, phased) case and symbolic alleles A0, A1 the term handed to write_int32 must be a signed
+      32-bit value whose 32 bits EQUAL the term Call0 / Call1 / Call2 -> Call.apply / fromUnphasedDiploidGtIndex build (extracted from
+      Call.scala); the triangular index is compared in polynomial normal form (Python // and JVM / agree on the non-negative operands in scope)
+  R2 additionally tracks, per path of the decoder, how many low bits of each expression over the signed word agree with the engine's
+      unsigned word (engines/exprir.SignDomain): a shift / comparison / index / decoded field that sees a still-signed value is reported
+Concrete words are used only to print a witness for a difference of terms that is already established; no verdict depends on them.
+When a converter does not have the tabulated statement shape (early returns, inline formulas) the per-field Python instances of R1-R6 are
+not produced and its behaviour is decided by R7 / R8 / R2-sign alone (announced as INFO and in the evidence).
 Does not decide: floating-point exactness of allele_pair_sqrt beyond the evaluated points.
 """
 from __future__ import annotations
@@ -34,7 +47,10 @@ META = dict(
          'object/def/val names and failing closed (no Scala parser exists offline). Trusted: CPython ast, that tokeniser/parser, the evaluator in '
          'engines/exprir.py (JVM Int = 32-bit two\'s complement, Scala precedence by first operator character). Not decided: exactness of '
          'math.sqrt-based inversion outside the evaluated points.',
-    technique='static analysis: cross-language extraction of bit layouts and index formulas + exhaustive evaluation of extracted expression trees on a finite domain',
+    technique='static analysis: cross-language extraction of bit layouts and index formulas + exhaustive evaluation of extracted expression trees on a finite domain; '
+              'abstract comparison of the two converters with the engine over a bit-field domain (exact bit vectors with symbolic allele bits and sign fill, arithmetic '
+              'terms in polynomial normal form, uninterpreted pair-inverse symbol), finite in (ploidy, phased) and covering every allele-field value; per-path sign / '
+              'agreeing-bits abstract domain',
     design_ref='DESIGN.md §3 C34',
 )
 
@@ -384,53 +400,33 @@ class ScalaCall:
             d = C.def_('Call', nm_)
             self.acc_trees[k_] = (d.params[0][0], _sc_ret(ctx, d, f'Call.{nm_}'))
 
-    # ---- the engine's packing / unpacking as functions (evaluation of the extracted trees, JVM Int arithmetic) ----
-    def apply_word(self, ar: int, phased: bool, ploidy: int) -> int:
-        """Call.apply(ar, phased, ploidy) from the extracted field table; Undefined when the engine calls fatal()."""
-        if ploidy < 0 or ploidy > 2 or ar < 0 or (ar >> self.max_repr_shift) != 0:
-            raise X.Undefined(f'Call.apply rejects ar={ar}, ploidy={ploidy}')
-        w = (int(bool(phased)) << self.w['phased'][0]) | (ploidy << self.w['ploidy'][0]) | (ar << self.w['repr'][0])
-        return w & 0xFFFFFFFF
+    # ---- the engine's helper definitions as (parameters, IR body), for abstract evaluation over the bit-field domain ----
+    def scala_funcs(self, ctx: Ctx) -> Dict[str, Tuple[List[str], tuple]]:
+        G = self.G
+        out: Dict[str, Tuple[List[str], tuple]] = {}
+        for k_, nm_ in (('phased', 'isPhased'), ('ploidy', 'ploidy'), ('repr', 'alleleRepr')):
+            prm, tree = self.acc_trees[k_]
+            out[nm_] = ([prm], tree)
+            out['Call.' + nm_] = ([prm], tree)
+        out['Genotype.diploidGtIndex'] = out['diploidGtIndex'] = self.gt_index
+        out['Genotype.diploidGtIndexWithSwap'] = out['diploidGtIndexWithSwap'] = self.gt_index_swap
+        sa = G.def_('AllelePair', 'apply', n_params=2)
+        for st in sa.stmts()[:-1]:
+            ctx.need(_sc_effect_only(st), f'{GENOSC}::AllelePair.apply: unrecognised statement')
+        out['AllelePair'] = ([p_[0] for p_ in sa.params], _sc_ret(ctx, sa, 'AllelePair.apply'))
+        for nm_ in ('j', 'k'):
+            d = G.def_('AllelePair', nm_, n_params=1)
+            out['AllelePair.' + nm_] = ([d.params[0][0]], _sc_ret(ctx, d, 'AllelePair.' + nm_))
+        out['allelePairUnchecked'] = out['Call.allelePairUnchecked'] = ([self.apu.params[0][0]], X.from_scala(self.apu.body))
+        return out
 
-    def _funcs(self) -> Dict[str, Any]:
-        def gt(j, k):
-            if j < 0 or j > k:
-                raise X.Undefined(f'diploidGtIndex({j}, {k}) throws')
-            return X.ev(self.gt_index[1], {self.gt_index[0][0]: j, self.gt_index[0][1]: k}, 'scala')
-
-        def gts(i, j):
-            return X.ev(self.gt_index_swap[1], {self.gt_index_swap[0][0]: i, self.gt_index_swap[0][1]: j}, 'scala', {'diploidGtIndex': gt, 'Genotype.diploidGtIndex': gt})
-
-        def from_gt(g):
-            if g < 0 or (g >> self.max_repr_shift) != 0:
-                raise X.Undefined(f'fromUnphasedDiploidGtIndex rejects {g}')
-            return ((self.w2['ploidy'][1] << self.w2['ploidy'][0]) | (g << self.w2['repr'][0])) & 0xFFFFFFFF
-
-        return {'Call': lambda ar, ph, pl, *rest: self.apply_word(ar, ph, pl), 'Genotype.diploidGtIndex': gt, 'diploidGtIndex': gt, 'Genotype.diploidGtIndexWithSwap': gts,
-                'diploidGtIndexWithSwap': gts, 'fromUnphasedDiploidGtIndex': from_gt, 'Call2.fromUnphasedDiploidGtIndex': from_gt}
-
-    def engine_word(self, alleles: List[int], phased: bool) -> int:
-        """The 32-bit word CallN(alleles, phased) produces (unsigned)."""
-        n = len(alleles)
-        if n in (0, 1):
-            ps, (ar, ph, pl) = self.ctor_args[n]
-            env = {'phased': phased}
-            if n == 1:
-                env[ps[0]] = alleles[0]
-                if alleles[0] < 0:
-                    raise X.Undefined('Call1 rejects negative allele')
-            return self.apply_word(X.ev(ar, env, 'scala'), X.ev(ph, env, 'scala'), X.ev(pl, env, 'scala'))
-        p0, p1 = self.call2.params[0][0], self.call2.params[1][0]
-        env = {p0: alleles[0], p1: alleles[1], 'phased': phased}
-        return X.ev(self.c2_ph if phased else self.c2_un, env, 'scala', self._funcs()) & 0xFFFFFFFF
-
-    def engine_fields(self, word: int) -> Tuple[int, bool, int]:
-        """(ploidy, phased, allele representation) the engine's accessors read from a word"""
-        c = word - (1 << 32) if word >= (1 << 31) else word
-        out = {}
-        for k_, (prm, tree) in self.acc_trees.items():
-            out[k_] = X.ev(tree, {prm: c}, 'scala')
-        return out['ploidy'], bool(out['phased']), out['repr']
+    def field_layout(self, ctx: Ctx) -> Dict[str, Tuple[int, int]]:
+        """field -> (shift, width) of the 32-bit word, from Call.apply's placements, the accessors' masks and the range check on `ar`"""
+        lay = {'phased': (self.w['phased'][0], 1), 'ploidy': (self.w['ploidy'][0], (self.r['ploidy'][1] or 0).bit_length()), 'repr': (self.w['repr'][0], self.max_repr_shift)}
+        used = sorted((sh, sh + wd, k) for k, (sh, wd) in lay.items())
+        ctx.need(used[0][0] == 0 and all(used[i][1] == used[i + 1][0] for i in range(len(used) - 1)) and used[-1][1] == 32,
+                 f'{CALLSC}: the fields placed by Call.apply {lay} do not tile the 32-bit word')
+        return lay
 
 
 def _call_args(e: tuple, fn_names: Tuple[str, ...]) -> Optional[List[tuple]]:
@@ -440,192 +436,317 @@ def _call_args(e: tuple, fn_names: Tuple[str, ...]) -> Optional[List[tuple]]:
 
 
 # --------------------------------------------------------------------------------------
-# semantic rules: the whole converter bodies are evaluated (own interpreter over the syntax trees) on a finite domain
+# R7 / R8: the two converters as decision lists of terms over the bit-fields of the word (abstract comparison, all words)
 # --------------------------------------------------------------------------------------
+#
+# The 32-bit word is the concatenation of the fields the engine places (layout read from Call.apply / the accessors).  Per case
+# (ploidy in 0..2, phased in F/T) the ploidy and phased fields are constants and the allele field is 29 symbolic bits R[28..0].
+# PathTerms rewrites each Python converter into per-path terms; TermEval evaluates those terms - and the engine's extracted Scala
+# terms - over exprir.BV (exact bit vectors with a sign fill) and Poly (arithmetic in normal form).  Equal abstract values mean equal
+# results for EVERY value of the symbolic bits.  A comparison that one symbolic bit decides (the sign bit of the word) splits the case
+# on that bit.  The pair <-> representation functions are not evaluated: the table lookup / sqrt inverse is the uninterpreted symbol
+# PAIR on both sides (their bodies are compared once by R4/R5), the triangular index is compared in polynomial normal form.
+# Concrete words appear only in the witness printed for a violation that the abstract comparison has established.
 
-HAPLOID_REPRS = [0, 1, 2, 7, 255, 65535, 65536, (1 << 28) - 1, 1 << 28, (1 << 28) + 1, (1 << 29) - 2, (1 << 29) - 1]
-DIPLOID_PAIRS = [(0, 0), (0, 1), (1, 1), (0, 2), (2, 2), (1, 7), (7, 7), (0, 8), (3, 8), (0, 96), (50, 96), (0, 1000), (1000, 1000), (16383, 32767), (0, 32767), (32766, 32766)]
-PHASED_INPUTS = [(0, 0), (1, 0), (0, 1), (2, 1), (1, 2), (3, 3), (5, 0), (7, 1), (100, 32000), (16383, 16384), (0, 32767), (32767, 0)]
+CALL_CTORS = ('genetics.Call', 'Call', 'hl.Call', 'hl.genetics.Call', 'hail.genetics.Call')
+PY_PAIR_FUNCS = {'allele_pair_sqrt': ('PAIR', 32)}
+PY_PAIR_TABLES = {'small_allele_pair': ('PAIR', 32)}
+SC_PAIR_FUNCS = {'Genotype.allelePair': ('PAIR', 32)}
 
 
-def _tri_inv(i: int) -> Tuple[int, int]:
-    """the pair (j, k), j <= k, with k(k+1)/2 + j == i (integer arithmetic)"""
-    k = int(((8 * i + 1) ** 0.5 - 1) // 2)
-    while (k + 1) * (k + 2) // 2 <= i:
-        k += 1
-    while k * (k + 1) // 2 > i:
-        k -= 1
-    return i - k * (k + 1) // 2, k
-
-
-class PySem:
-    """_tcall._convert_from_encoding / _convert_to_encoding as functions, by interpretation of their syntax trees.  Call values are
-    instances of the real `Call` class of genetics/call.py, built and inspected through the same interpreter (so Call.__init__'s sorting
-    of unphased pairs and whichever accessors the converters use are part of what is evaluated)."""
-
-    def __init__(self, ctx: Ctx, m: pf.Module):
-        self.m = m
+class Abstract:
+    def __init__(self, ctx: Ctx, m: pf.Module, sc: ScalaCall):
+        self.ctx, self.m, self.sc = ctx, m, sc
         self.dec = m.func('_tcall._convert_from_encoding')
         self.enc = m.func('_tcall._convert_to_encoding')
-        self.cm = pf.load(CALLPY)
+        self.layout = sc.field_layout(ctx)
+        self.sfuncs = sc.scala_funcs(ctx)
         vc = W.value_class('Call')
         ctx.need(vc.params[:2] == ['alleles', 'phased'], f'{CALLPY}::Call.__init__ parameters are {vc.params}')
+        self._paths: Dict[str, List[X.TermPath]] = {}
 
-    def _interps(self) -> Tuple[X.PyInterp, Any]:
-        ci = X.PyInterp(self.cm)
-        call_cls = ci.global_value('Call', self.cm.tree)
-        ext = {n: call_cls for n in ('genetics.Call', 'Call', 'hl.Call', 'hl.genetics.Call', 'hail.genetics.Call')}
-        return X.PyInterp(self.m, ext), call_cls
+    # ---- Python side: per-path terms ----------------------------------------------------
+    def resolver(self, fn: pf.FuncDef):
+        m = self.m
+        selfname = W.param_names(fn)[0]
+        cls, base = m.cls('_tcall'), m.cls('HailType')
 
-    def _self(self, it: X.PyInterp) -> X.PyObj:
-        o = X.PyObj('_tcall')
-        o.cls = it.global_value('_tcall', self.m.tree)
-        return o
+        def resolve(name: str):
+            parts = name.split('.')
+            if name in PY_PAIR_FUNCS:
+                return None  # abstraction point: compared with the engine's helper by R4, not unfolded
+            if len(parts) == 2 and parts[0] in (selfname, '_tcall', 'HailType'):
+                for c in ((cls, base) if parts[0] != 'HailType' else (base,)):
+                    f = W.methods(c).get(parts[1])
+                    if f is not None and not parts[1].startswith('_convert_'):
+                        if 'classmethod' in pf.decorator_names(f) or 'property' in pf.decorator_names(f):
+                            return None
+                        return (f, 0 if 'staticmethod' in pf.decorator_names(f) or parts[0] != selfname else 1)
+                return None
+            if len(parts) == 1 and any(isinstance(f, ast.FunctionDef) and f.name == name for f in m.tree.body):
+                return (m.func(name), 0)
+            return None
+        return resolve
 
+    def paths(self, which: str) -> Tuple[List[X.TermPath], X.PathTerms]:
+        fn = self.dec if which == 'dec' else self.enc
+        pt = X.PathTerms(f'{F}::_tcall.{fn.name}', W.param_names(fn)[1], resolver=self.resolver(fn))
+        return pt.run(fn, {}), pt
+
+    # ---- the word --------------------------------------------------------------------------
+    def word(self, ploidy: int, phased: bool, rep: X.BV) -> X.BV:
+        """unsigned 32-bit word with the given field contents"""
+        out = X.BV.const(0)
+        for k, v in (('phased', X.BV.const(int(phased))), ('ploidy', X.BV.const(ploidy)), ('repr', rep)):
+            sh, wd = self.layout[k]
+            out = out.bor(X.BV(tuple(v.bit(i) for i in range(wd)), 0).shl(sh))
+        return out
+
+    def engine_apply(self, te: X.TermEval, ar: Any, phased: Any, ploidy: Any) -> X.BV:
+        """Call.apply(ar, phased, ploidy) over the domain (field placements from the extracted table; the range checks are the scope)"""
+        if not isinstance(phased, bool) or not isinstance(ploidy, int):
+            raise AnalysisError(f'{CALLSC}: Call.apply reached with a non-constant ploidy / phased in the abstract evaluation')
+        rep = te.to_bv(ar)
+        wd = self.layout['repr'][1]
+        if any(rep.bit(i) != 0 for i in range(wd, wd + 8)) or rep.fill != 0:
+            raise AnalysisError(f'{CALLSC}: allele representation term `{te.show(ar)}` is not known to fit {wd} bits')
+        return self.word(ploidy, phased, rep).wrap(32)
+
+    # ---- splitting on single bits ----------------------------------------------------------------
+    def split(self, run, assume: Dict[tuple, int], depth: int = 0) -> List[Tuple[Dict[tuple, int], Any]]:
+        try:
+            return [(dict(assume), run(assume))]
+        except X.Undecided as u:
+            if u.lit is None or depth >= 4:
+                raise AnalysisError(f'{F}::_tcall: the abstract evaluation cannot decide {u.what}')
+            key = (u.lit[1], u.lit[2])
+            out = []
+            for v in (0, 1):
+                a2 = dict(assume)
+                a2[key] = v
+                out += self.split(run, a2, depth + 1)
+            return out
+
+    # ---- decode ------------------------------------------------------------------------------------
+    def decode_case(self, ploidy: int, phased: bool, assume: Dict[tuple, int]) -> dict:
+        wd = self.layout['repr'][1]
+        R = X.BV.sym('R', wd, assume)
+        U = self.word(ploidy, phased, R)
+        w = X.BV(tuple(U.bit(i) for i in range(32)), U.bit(31))   # read_int32: the same 32 bits, sign-extended
+        # engine: what its accessors read from U
+        te = X.TermEval('scala', {'$c': U.wrap(32)}, funcs=self.sfuncs, uninterp=SC_PAIR_FUNCS, assume=assume)
+        call = lambda f, a: ('call', ('name', f), [(None, a)], None)
+        e_pl = te.ev(call('ploidy', ('name', '$c')))
+        e_ph = te.ev(call('isPhased', ('name', '$c')))
+        if not isinstance(e_pl, int) or not isinstance(e_ph, bool):
+            raise AnalysisError(f'{CALLSC}: accessors do not read constant ploidy / phased from a word with constant ploidy / phased fields')
+        if e_pl == 0:
+            e_al: Optional[List[Any]] = []
+        elif e_pl == 1:
+            e_al = [te.ev(call('alleleRepr', ('name', '$c')))]
+        elif e_pl == 2:
+            te.env['$P'] = te.ev(call('allelePairUnchecked', ('name', '$c')))
+            e_al = [te.ev(call('AllelePair.j', ('name', '$P'))), te.ev(call('AllelePair.k', ('name', '$P')))]
+        else:
+            e_al = None
+        eng = ('Call', te.key(e_al), te.key(e_ph)) if e_al is not None else ('raise',)
+        # python: the path taken and its result term
+        paths, pt = self._paths.get('dec') or self._paths.setdefault('dec', self.paths('dec'))
+        tp = X.TermEval('py', {'$w': w}, uninterp=PY_PAIR_FUNCS, tables=PY_PAIR_TABLES, assume=assume, ctor=CALL_CTORS)
+        taken = []
+        for p in paths:
+            ok = True
+            for c, pol, _ in p.conds:
+                if tp.truth(tp.ev(c), c) != pol:
+                    ok = False
+                    break
+            if ok:
+                taken.append(p)
+        if len(taken) != 1:
+            raise AnalysisError(f'{F}::_tcall._convert_from_encoding: {len(taken)} paths are feasible for ploidy {ploidy}, phased {phased}')
+        p = taken[0]
+        py_val: Any = None
+        if p.end[0] == 'return' and p.end[1] is not None:
+            try:
+                py_val = tp.ev(p.end[1])
+                py = ('Call', tp.key(py_val.alleles), tp.key(py_val.phased)) if isinstance(py_val, X.CallValue) else ('value', tp.key(py_val))
+            except X.PathRaises as ex:
+                py = ('raise', str(ex))
+        elif p.end[0] == 'raise':
+            py = ('raise', p.end[1])
+        else:
+            py = ('value', ('none',))
+        same = py == eng or (py[0] == 'raise' and eng[0] == 'raise')
+        return dict(same=same, py=py, eng=eng, py_val=py_val, e_al=e_al, e_ph=e_ph, U=U, tp=tp, te=te, line=p.end[2] if len(p.end) > 2 else self.dec.lineno,
+                    conds=[(X.show(c).replace('$w', 'word')[:60], pol) for c, pol, _ in p.conds])
+
+    # ---- encode ----------------------------------------------------------------------------------------
+    def encode_case(self, ploidy: int, phased: bool, assume: Dict[tuple, int]) -> dict:
+        A = [X.Poly.atom(('sym', f'A{i}')) for i in range(ploidy)]
+        nonneg = set()
+        if ploidy == 2 and not phased:
+            nonneg.add((A[1] - A[0]).key())   # Call.__init__ sorts the alleles of an unphased diploid call (R3)
+        # engine: CallN(alleles, phased) = Call0 / Call1 / Call2
+        sc = self.sc
+        hooks_holder: Dict[str, Any] = {}
+        te = X.TermEval('scala', {}, funcs=self.sfuncs, assume=assume, nonneg=nonneg)
+        te.hooks = {'Call': lambda a: self.engine_apply(te, a[0], a[1], a[2]),
+                    'fromUnphasedDiploidGtIndex': lambda a: self.word(sc.w2['ploidy'][1], False, te.to_bv(a[0])).wrap(32),
+                    'Call2.fromUnphasedDiploidGtIndex': lambda a: self.word(sc.w2['ploidy'][1], False, te.to_bv(a[0])).wrap(32)}
+        if ploidy in (0, 1):
+            ps_, (ar, ph, pl) = sc.ctor_args[ploidy]
+            te.env.update({'phased': phased})
+            if ploidy == 1:
+                te.env[ps_[0]] = A[0]
+            eng = self.engine_apply(te, te.ev(ar), te.ev(ph), te.ev(pl))
+        else:
+            p0, p1 = sc.call2.params[0][0], sc.call2.params[1][0]
+            te.env.update({p0: A[0], p1: A[1], 'phased': phased})
+            eng = te.to_bv(te.ev(sc.c2_ph if phased else sc.c2_un)).wrap(32)
+        # python
+        paths, pt = self._paths.get('enc') or self._paths.setdefault('enc', self.paths('enc'))
+        value = W.param_names(self.enc)[2]
+        tp = X.TermEval('py', {f'{value}.ploidy': ploidy, f'{value}.phased': phased, f'{value}.alleles': list(A)}, assume=assume, nonneg=nonneg, ctor=CALL_CTORS)
+        taken = []
+        for p in paths:
+            ok = True
+            for c, pol, _ in p.conds:
+                if tp.truth(tp.ev(c), c) != pol:
+                    ok = False
+                    break
+            if ok:
+                taken.append(p)
+        if len(taken) != 1:
+            raise AnalysisError(f'{F}::_tcall._convert_to_encoding: {len(taken)} paths are feasible for ploidy {ploidy}, phased {phased}')
+        p = taken[0]
+        res = dict(eng=eng, tp=tp, te=te, line=self.enc.lineno, written=None, problem=None)
+        if p.end[0] == 'raise':
+            res['problem'] = f'raises {p.end[1]}'
+            return res
+        if len(p.writes) != 1 or p.writes[0][0] != 'write_int32':
+            res['problem'] = f'performs the stream operations {[w_[0] for w_ in p.writes]} (expected one write_int32)'
+            return res
+        res['line'] = p.writes[0][2]
+        try:
+            v = tp.to_bv(tp.ev(p.writes[0][1]))
+        except X.PathRaises as ex:
+            res['problem'] = f'raises {ex}'
+            return res
+        res['written'] = v
+        if any(v.bit(i) != v.bit(31) for i in range(31, max(len(v.bits), 32) + 1)):
+            res['problem'] = 'int32-range'
+        elif any(v.bit(i) != eng.bit(i) for i in range(32)):
+            res['problem'] = 'bits'
+        return res
+
+    # ---- witnesses (printing only) ------------------------------------------------------------------
     @staticmethod
-    def _call_value(call_cls: Any, v: Any) -> Any:
-        if isinstance(v, X.PyObj) and v.cls is call_cls:
-            al = call_cls.member('alleles', v, call_cls.cdef)
-            ph = call_cls.member('phased', v, call_cls.cdef)
-            return ('Call', list(al) if isinstance(al, (list, tuple)) else al, ph)
-        return ('value', repr(v))
-
-    def decode(self, word: int) -> Any:
-        """result of the Python decoder on the unsigned 32-bit word: ('Call', alleles, phased) | ('raise', text) | ('value', repr)"""
-        signed = word - (1 << 32) if word >= (1 << 31) else word
-        rd = X.PyObj('ByteReader')
-        rd.methods['read_int32'] = lambda: signed
-        it, call_cls = self._interps()
-        try:
-            return self._call_value(call_cls, it.call_function(self.dec, [self._self(it), rd], {}, None))
-        except X.PyRaise as e:
-            return ('raise', str(e))
-
-    def encode(self, alleles: List[int], phased: bool) -> Any:
-        """('words', [ints written]) | ('raise', text)"""
-        out: List[int] = []
-        wr = X.PyObj('ByteWriter')
-
-        def w32(v):
-            if not isinstance(v, int) or isinstance(v, bool):
-                raise X.PyRaise(f'struct.error: required argument is not an integer ({v!r})')
-            if not (-(1 << 31) <= v < (1 << 31)):
-                raise X.PyRaise(f'struct.error: write_int32({v}) - argument out of range for a signed 32-bit integer')
-            out.append(v)
-        wr.methods['write_int32'] = w32
-        it, call_cls = self._interps()
-        try:
-            val = call_cls(list(alleles), bool(phased))
-            it.call_function(self.enc, [self._self(it), wr, val], {}, None)
-        except X.PyRaise as e:
-            return ('raise', str(e))
-        return ('words', out)
+    def witness(a: X.BV, b: X.BV, assume: Dict[tuple, int]) -> Dict[tuple, int]:
+        """an assignment of the symbolic bits on which the two (already different) vectors differ"""
+        forced = dict(assume)
+        for i in range(max(len(a.bits), len(b.bits)) + 1):
+            x, y = a.bit(i), b.bit(i)
+            if x == y:
+                continue
+            for s_, other in ((x, y), (y, x)):
+                if s_ not in (0, 1) and other in (0, 1):
+                    want = 1 - other
+                    forced[(s_[1], s_[2])] = (1 - want) if s_[3] else want
+                    return forced
+            return forced
+        return forced
 
 
-def _show_call(alleles: List[int], phased: bool) -> str:
+def _show_call(alleles: Any, phased: Any) -> str:
     return f'Call({alleles}, phased={phased})'
 
 
-def _r7_decode(ctx: Ctx, m: pf.Module, ps: PySem, sc: ScalaCall):
-    """every word the engine can produce is unpacked by Python to the call the engine's accessors read from it"""
-    n_words = 0
+def _case_split_text(assume: Dict[tuple, int]) -> str:
+    return (' [' + ', '.join(f'{s_}[{i}] = {v}' for (s_, i), v in sorted(assume.items(), key=repr)) + ']') if assume else ''
+
+
+def _r7_decode(ctx: Ctx, m: pf.Module, ab: Abstract, sc: ScalaCall):
+    """for every (ploidy, phased) and every value of the allele field: the decoder's result term == the term the engine's accessors read"""
+    n_leaves = 0
     for ploidy in (0, 1, 2):
         for phased in (False, True):
             cons = f'{F}::_tcall._convert_from_encoding::decodes engine words (ploidy {ploidy}, {"phased" if phased else "unphased"})'
-            bad = None
-            if ploidy == 0:
-                cases = [([], 0)]
-            elif ploidy == 1:
-                cases = [([r], r) for r in HAPLOID_REPRS]
-            else:
-                cases = [([j, k - j] if phased else [j, k], _tri(j, k)) for j, k in DIPLOID_PAIRS]
-            for alleles, rep in cases:
-                word = sc.apply_word(rep, phased, ploidy)
-                # what the engine itself reads back from that word (its accessors; pair inversion by the VCF-order specification, which R4/R5 tie the engine to)
-                e_pl, e_ph, e_rep = sc.engine_fields(word)
-                if e_pl == 0:
-                    e_alleles: Optional[List[int]] = []
-                elif e_pl == 1:
-                    e_alleles = [e_rep]
-                elif e_pl == 2 and e_rep >= 0:
-                    j, k = _tri_inv(e_rep)
-                    e_alleles = [j, k - j] if e_ph else [j, k]
-                else:
-                    e_alleles = None  # the engine throws
-                got = ps.decode(word)
-                n_words += 1
-                same = (got[0] == 'raise' and e_alleles is None) or got == ('Call', e_alleles, e_ph)
-                if not same:
-                    bad = (word, alleles, got, (e_pl, e_ph, e_rep, e_alleles))
-                    break
+            leaves = ab.split(lambda a: ab.decode_case(ploidy, phased, a), {})
+            n_leaves += len(leaves)
+            bad = next(((a, r) for a, r in leaves if not r['same']), None)
             msg = ''
+            line = ab.dec.lineno
             if bad:
-                word, alleles, got, (e_pl, e_ph, e_rep, e_alleles) = bad
-                shown = f'raises {got[1]}' if got[0] == 'raise' else (_show_call(got[1], got[2]) if got[0] == 'Call' else f'the non-Call value {got[1]}')
-                eng = _show_call(e_alleles, e_ph) if e_alleles is not None else 'an exception'
-                msg = (f'engine word {word:#010x} = Call.apply({word >> 3}, {phased}, {ploidy}) for {_show_call(alleles, phased)}; the engine reads it back as {eng} '
-                       f'(Call.ploidy/isPhased/alleleRepr: ploidy {e_pl}, phased {e_ph}, representation {e_rep}); '
-                       f'Python\'s decoder, given read_int32() = {word - (1 << 32) if word >= (1 << 31) else word}, yields {shown}')
-            ctx.check(bad is None, 'R7', cons, msg, m.path, ps.dec.lineno, detail={'words': len(cases)})
-    ctx.unit('words_decoded', n_words)
+                assume, r = bad
+                tp, te = r['tp'], r['te']
+                line = r['line']
+                py_txt = (f'raises ({r["py"][1]})' if r['py'][0] == 'raise' else
+                          (_show_call(tp.show(r['py_val'].alleles), tp.show(r['py_val'].phased)) if isinstance(r['py_val'], X.CallValue) else tp.show(r['py_val'])))
+                eng_txt = _show_call(te.show(r['e_al']), r['e_ph']) if r['e_al'] is not None else 'an exception'
+                # witness word: the symbolic bits chosen so that the two terms differ (evaluation of the two terms only)
+                wit = ''
+                if isinstance(r['py_val'], X.CallValue) and r['e_al'] is not None and isinstance(r['py_val'].alleles, list) and len(r['py_val'].alleles) == len(r['e_al']):
+                    for x, y in zip(r['py_val'].alleles, r['e_al']):
+                        bx, by = tp.to_bv(x), te.to_bv(y)
+                        if bx.key() != by.key():
+                            forced = ab.witness(bx, by, assume)
+                            asg = lambda s_, i: forced.get((s_, i), 0)
+                            if all(isinstance(sy[1], str) for sy in bx.symbols() + by.symbols()):
+                                word = r['U'].substitute(asg)
+                                wit = (f' Witness: word {word:#010x} (read_int32() = {word - (1 << 32) if word >= (1 << 31) else word}): Python\'s term is {bx.substitute(asg)}, '
+                                       f'the engine\'s is {by.substitute(asg)}.')
+                            break
+                path = ' and '.join(('' if pol else 'not ') + c for c, pol in r['conds']) or 'always'
+                msg = (f'for words with ploidy field {ploidy}, phased bit {int(phased)} and allele field R{_case_split_text(assume)}: on the path [{path}] Python\'s decoder yields {py_txt}, '
+                       f'the engine\'s accessors (Call.ploidy / isPhased / alleleRepr / allelePair) read {eng_txt} - different terms, i.e. different calls for some R '
+                       f'(…x[i] denotes sign extension with bit i).{wit}')
+            ctx.check(bad is None, 'R7', cons, msg, m.path, line, detail={'sub_cases': len(leaves), 'decided': 'equality of terms over the bit-field domain, all 2^29 allele-field values'})
+    ctx.unit('decode_sub_cases', n_leaves)
 
 
-def _r8_encode(ctx: Ctx, m: pf.Module, ps: PySem, sc: ScalaCall):
-    """decision list of the encoder: for every (ploidy, phased) case the word written == the word Call0/Call1/Call2 pack"""
-    n_calls = 0
+def _r8_encode(ctx: Ctx, m: pf.Module, ab: Abstract, sc: ScalaCall):
+    """decision list of the encoder: per (ploidy, phased) the written word's fields == the fields Call0/Call1/Call2 -> Call.apply pack, for all alleles"""
+    n_leaves = 0
+    lay = ab.layout
     for ploidy in (0, 1, 2):
         for phased in (False, True):
             cons = f'{F}::_tcall._convert_to_encoding::packs like the engine (ploidy {ploidy}, {"phased" if phased else "unphased"})'
-            if ploidy == 0:
-                cases = [[]]
-            elif ploidy == 1:
-                cases = [[r] for r in HAPLOID_REPRS]
-            elif phased:
-                cases = [[a, b] for a, b in PHASED_INPUTS if _tri(a, a + b) <= MAX_REPR]
-            else:
-                cases = [[j, k] for j, k in DIPLOID_PAIRS] + [[k, j] for j, k in DIPLOID_PAIRS[:8] if j != k]
-            bad = None
-            for alleles in cases:
-                got = ps.encode(alleles, phased)
-                n_calls += 1
-                try:
-                    want = sc.engine_word(alleles, phased)
-                except X.Undefined as ex:
-                    bad = (alleles, None, f'the engine rejects this call ({ex}); Python ' + (f'writes {got[1]}' if got[0] == 'words' else f'raises {got[1]}'))
-                    break
-                if got[0] == 'raise':
-                    bad = (alleles, want, f'raises {got[1]}')
-                elif len(got[1]) != 1:
-                    bad = (alleles, want, f'writes {len(got[1])} int32 words {got[1]}')
-                elif (got[1][0] & 0xFFFFFFFF) != want:
-                    v = got[1][0] & 0xFFFFFFFF
-                    diff = []
-                    if (v & 1) != (want & 1):
-                        diff.append(f'phased bit {v & 1} instead of {want & 1}')
-                    if ((v >> 1) & 3) != ((want >> 1) & 3):
-                        diff.append(f'ploidy field {(v >> 1) & 3} instead of {(want >> 1) & 3}')
-                    if (v >> 3) != (want >> 3):
-                        diff.append(f'allele representation {v >> 3} instead of {want >> 3}')
-                    bad = (alleles, want, f'writes {v:#010x} ({", ".join(diff)})')
-                if bad:
-                    break
+            leaves = ab.split(lambda a: ab.encode_case(ploidy, phased, a), {})
+            n_leaves += len(leaves)
+            bad = next(((a, r) for a, r in leaves if r['problem']), None)
             msg = ''
+            line = ab.enc.lineno
             if bad:
-                alleles, want, what = bad
-                if want is None:
-                    msg = f'{_show_call(alleles, phased)}: {what}'
+                assume, r = bad
+                line = r['line']
+                tp, te = r['tp'], r['te']
+                alle = '[' + ', '.join(f'A{i}' for i in range(ploidy)) + ']'
+                head = f'Call({alle}, phased={phased}){_case_split_text(assume)}: the engine (Call{ploidy} -> Call.apply) packs the word {X.show_bv(r["eng"])}'
+                if r['problem'] == 'int32-range':
+                    v = r['written']
+                    forced = dict(assume)
+                    asg = lambda s_, i: forced.get((s_, i), 0)
+                    wit = f' (e.g. {v.substitute(asg)} for all other symbolic bits 0)' if all(isinstance(sy[1], str) for sy in v.symbols()) else ''
+                    msg = f'{head}; Python hands write_int32 the value {X.show_bv(v)}{wit}, which is not a signed 32-bit integer (bits above 31 are not the sign extension of bit 31): struct.error'
+                elif r['problem'] == 'bits':
+                    v = r['written']
+                    diff = []
+                    for k, (sh, wd) in lay.items():
+                        if any(v.bit(i) != r['eng'].bit(i) for i in range(sh, sh + wd)):
+                            pv, ev_ = X.BV(tuple(v.bit(i) for i in range(sh, sh + wd)), 0), X.BV(tuple(r['eng'].bit(i) for i in range(sh, sh + wd)), 0)
+                            diff.append(f'{k} field {X.show_bv(pv)} instead of {X.show_bv(ev_)}')
+                    msg = (f'{head}; Python writes {X.show_bv(v)} - ' + ', '.join(diff) + ': the engine (and Python\'s own decoder) read a different call from the word Python sends')
                 else:
-                    msg = (f'{_show_call(alleles, phased)}: the engine packs {want:#010x} (Call{ploidy}/Call.apply: phased bit {want & 1}, ploidy {(want >> 1) & 3}, representation {want >> 3}); '
-                           f'Python {what}: the engine (and Python\'s own decoder) read a different call from the word Python sends')
-            ctx.check(bad is None, 'R8', cons, msg, m.path, ps.enc.lineno, detail={'calls': len(cases)})
-    ctx.unit('calls_encoded', n_calls)
+                    msg = f'{head}; Python {r["problem"]}'
+            ctx.check(bad is None, 'R8', cons, msg, m.path, line, detail={'sub_cases': len(leaves), 'decided': 'equality of the 32 bits over the bit-field domain, symbolic alleles'})
+    ctx.unit('encode_sub_cases', n_leaves)
 
 
-def _r2_sign(ctx: Ctx, m: pf.Module, ps: PySem) -> Optional[str]:
+def _r2_sign(ctx: Ctx, m: pf.Module, ab: 'Abstract') -> Optional[str]:
     """Dataflow over every path of the decoder: the word read by read_int32 is signed; each use of it (or of a value derived from it) where
     high bits matter must see the unsigned value.  Decided in the agreeing-low-bits domain of engines/exprir.SignDomain.
     Returns a message if the function cannot be path-executed (the caller declines after all other rules have reported)."""
-    fn = ps.dec
+    fn = ab.dec
     stream = W.param_names(fn)[1]
     cons = f'{F}::_tcall._convert_from_encoding::sign-safe use of the 32-bit word'
     selfname = W.param_names(fn)[0]
@@ -648,7 +769,7 @@ def _r2_sign(ctx: Ctx, m: pf.Module, ps: PySem) -> Optional[str]:
         return None
 
     try:
-        se = X.SymExec(f'{F}::_tcall._convert_from_encoding', stream, resolver=resolver)
+        se = X.PathTerms(f'{F}::_tcall._convert_from_encoding', stream, resolver=resolver)
         paths = se.run(fn, {})
     except AnalysisError as e:
         return f'sign analysis of the decoder not possible: {e}'
@@ -1209,8 +1330,8 @@ def run(ctx: Ctx) -> None:
     ctx.level = 'other'
     ctx.explanation = ('(shift, mask) tables of the call word are extracted from _tcall._convert_to/from_encoding (ast) and from Call.scala (narrow extractors) and compared; '
                        'index formulas, the small allele-pair tables and the pair packing are compared by evaluating the extracted expression trees on a finite domain; '
-                       'the two converter bodies as a whole (all return paths, nested and module-level helpers) are evaluated by an own interpreter on boundary calls / words of '
-                       'every (ploidy, phased) case and compared with the engine\'s Call0/Call1/Call2/Call.apply and accessors; the signedness of the decoded word is tracked per path.')
+                       'the two converter bodies as a whole (all return paths, helpers substituted) are rewritten into terms and compared with the engine\'s extracted terms over an '
+                       'exact bit-field domain, per (ploidy, phased) case and for every value of the allele bits; the signedness of the decoded word is tracked per path.')
     m = pf.load(F)
     # the tabulated statement shape of the two Python converters (accumulator |= field << shift; if-chain over ploidy): when present, the
     # per-field rules below give precise diagnostics; when a converter has been restructured (early returns, inline formulas) its behaviour
@@ -1240,20 +1361,30 @@ def run(ctx: Ctx) -> None:
     ctx.rule('R4', 'gt index k(k+1)/2+j and its sqrt inverse: Python and Scala expression trees evaluate identically and are mutually inverse on the evaluated domain', 3)
     ctx.rule('R5', 'small allele-pair tables: entry i has k(k+1)/2+j == i, j<=k, Python == Scala on the common prefix, consulted exactly for i < len', 75 if legacy else 74)
     ctx.rule('R6', 'allele-pair packing j | k<<16 is inverted by the accessors on each side', 2 if legacy else 1)
-    ctx.rule('R7', 'decoder as a whole (every return path): each engine word of every (ploidy, phased) case, incl. representations >= 2^28 (sign bit set), is unpacked to the call '
-                   'the engine\'s accessors read from it', 6)
-    ctx.rule('R8', 'encoder as a decision list: for every (ploidy, phased) case the int32 written has the bits Call0/Call1/Call2 -> Call.apply pack (phased bit, ploidy, representation)', 6)
+    ctx.rule('R7', 'decoder as a decision list of terms: per (ploidy, phased) case and for every value of the 29 allele bits (bit 31 of the word included) the term of the decoded call '
+                   'equals the term the engine\'s accessors read (exact bit-vector domain with sign extension; PAIR uninterpreted on both sides)', 6)
+    ctx.rule('R8', 'encoder as a decision list of terms: per (ploidy, phased) case and symbolic alleles the value written is a signed 32-bit integer whose 32 bits equal the term '
+                   'Call0/Call1/Call2 -> Call.apply pack (phased bit, ploidy, representation; gt index in polynomial normal form)', 6)
     ctx.assume('JVM Int is 32-bit two\'s complement; struct "=i" packs a signed 32-bit integer; Scala infix precedence follows the first operator character')
-    ctx.assume('calls in scope: ploidy 0..2, allele representation <= 2^29 - 1 (the engine rejects larger ones)')
+    ctx.assume('calls in scope: ploidy 0..2, allele representation <= 2^29 - 1 (the engine rejects larger ones): in R8 every arithmetic term over allele indices used as a bit '
+               'pattern is a non-negative value below 2^29; allele indices are non-negative, so Python // and JVM / coincide on them')
+    ctx.assume('the pair inverse (small table below its length, sqrt formula above) is one function PAIR on each side; that the two sides\' PAIR agree is R4/R5, not R7')
+    ctx.assume('Call values are well-formed: ploidy == len(alleles), alleles of an unphased diploid call sorted (Call.__init__, R3); Call.alleles of the engine is '
+               '[] / [alleleRepr] / AllelePair.j,k(allelePairUnchecked) by ploidy')
     ctx.unit('files', 4)
     sc = ScalaCall(ctx)
     ctx.need(sc.max_repr_shift == 29, f'engine range check is (ar >>> {sc.max_repr_shift}) != 0; the analysed range assumes 29')
     ctx.unit('functions', 22)
-    ps = PySem(ctx, m)
-    # semantic rules first: a violation they establish is reported even if a shape-dependent rule below declines
-    _r7_decode(ctx, m, ps, sc)
-    _r8_encode(ctx, m, ps, sc)
-    deferred = _r2_sign(ctx, m, ps)
+    # shape-independent rules first: a violation they establish is reported even if a shape-dependent rule below declines; if they cannot
+    # be set up (e.g. the engine's own packer and accessors disagree about the layout - R1 reports that) the decline is raised at the end
+    deferred: Optional[str] = None
+    try:
+        ab = Abstract(ctx, m, sc)
+        _r7_decode(ctx, m, ab, sc)
+        _r8_encode(ctx, m, ab, sc)
+        deferred = _r2_sign(ctx, m, ab)
+    except AnalysisError as e:
+        deferred = str(e)
     if not legacy:
         ctx.info(f'{F}::_tcall: the Python converters do not have the tabulated statement shape ({why_not}); their agreement with the engine is decided by R7/R8/R2-sign '
                  f'(evaluation of the whole bodies), the per-field Python instances of R1-R6 are not produced')
